@@ -55,15 +55,28 @@ deriving DecidableEq, Repr
 detectable without looking inside a chunk — fewer bytes than Content-Length, or a chunked body cut
 between chunks (no terminating 0-chunk) — then the connection is closed.
 `truncatedChunked h received`: a complete head `h` with `Transfer-Encoding: chunked`; the connection
-is closed INSIDE a chunk, after `received` decoded body bytes. -/
+is closed INSIDE a chunk, after `received` decoded body bytes.
+`overflowLength h received`: a complete head `h` announcing a Content-Length of 2^63 or more, `received` body bytes, then
+the connection is closed. -/
 inductive Fault
   | refused | closedBeforeReply | truncatedBody (h : Head) | truncatedChunked (h : Head) (received : Bytes)
   | garbageStatusLine
+  | overflowLength (h : Head) (received : Bytes)
 deriving DecidableEq, Repr
 
 def Fault.isTruncatedChunked : Fault → Bool
   | .truncatedChunked _ _ => true
   | _ => false
+
+def Fault.isOverflowLength : Fault → Bool
+  | .overflowLength _ _ => true
+  | _ => false
+
+/-- the (adapter, fault) pairs where the ENGINE itself reports a normal end of body although the reply was cut:
+ureq 2.x on a chunked body cut inside a chunk (F6); libcurl on a body announced with a Content-Length that overflows its
+offset type — it logs "Overflow Content-Length" and reads until the connection closes (F9) -/
+def Fault.engineBlind (a : Id) (f : Fault) : Bool :=
+  (decide (a = .ureq) && f.isTruncatedChunked) || (decide (a = .curl) && f.isOverflowLength)
 
 /-- `http::Response<Vec<u8>>` at the observables of the property -/
 structure Response where
@@ -205,6 +218,11 @@ def lib (a : Id) : WireReply ⊕ Fault → LibResult
       | .curl => .transportErr
       | .ureq => if 400 ≤ h.status then .statusErr h (some received) else .ok h (some received)
       | _ => .ok h none
+  | .inr (.overflowLength h received) =>
+      match a with
+      | .curl => .ok h (some received)      -- [probed] libcurl: "Overflow Content-Length", body delimited by the close
+      | .ureq => if 400 ≤ h.status then .statusErr h none else .ok h none
+      | _ => .transportErr                  -- hyper refuses the header
   | .inr _ => .transportErr
 
 def adapter (v : Version) (a : Id) (x : WireReply ⊕ Fault) : Outcome := glue v a (lib a x)
